@@ -205,7 +205,7 @@ ERRCLASS = [("nil error", "nil"), ("type error", "type"), ("division by zero", "
 MARK = "@@MARK@@"
 
 
-def judge_via_loop(sessions, cmp=("report",), maxsteps=60000, ck=None, part=None):
+def judge_via_loop(sessions, cmp=("report",), maxsteps=60000, ck=None, part=None, oneline=False):
     """The sessions go through the real read-eval loop (node.Loop in process, the REPL's way of running statements) with a marker
     statement after every item; the transcript is cut at the markers and every piece becomes a recorded observation (a value -- not
     compared --, or an error with its class and parsed report) which CalcSem judges in trace mode.  Returns a list of Verdict."""
@@ -215,6 +215,12 @@ def judge_via_loop(sessions, cmp=("report",), maxsteps=60000, ck=None, part=None
         lines = []
         for t in texts:
             lines += t.split("\n") + ['write("%s")' % MARK]
+        if oneline:         # a session marked "oneline" puts its statements from index s["oneline"] on, with their markers, on one input line
+            k = s.get("oneline", 0)
+            lines = []
+            for t in texts[:k]:
+                lines += t.split("\n") + ['write("%s")' % MARK]
+            lines.append(" ".join(t + ' write("%s")' % MARK for t in texts[k:]))
         reqs.append({"id": s["id"], "lines": lines, "doout": True, "stdin": s.get("stdin", [])})
         by_id[s["id"]] = (s, texts)
     real = vlib.run_loop(reqs)
